@@ -67,12 +67,17 @@ type RunResult struct {
 	TraceHash  string
 	ShapeHash  string
 	Run        *rt.Run
+	// Abandoned: the run could not be executed by the cooperative scheduler (a
+	// task blocked on something a parked task holds); it is not judged, and the
+	// process must not execute further runs.
+	Abandoned string
 }
 
 const defaultStepBudget = 2_000_000
 
 // execRun executes property p once on the given tape.
 func execRun(p *Prop, tape *rt.Tape, tier string, record bool) (res RunResult) {
+	rt.StartWatchdog(5 * time.Second)
 	r := rt.NewRun(tape)
 	r.Record = record
 	r.StepBudget = p.StepBudget
@@ -86,6 +91,9 @@ func execRun(p *Prop, tape *rt.Tape, tier string, record bool) (res RunResult) {
 			if v := recover(); v != nil {
 				r.Abort()
 				switch pv := v.(type) {
+				case rt.RunAbandoned:
+					res.Abandoned = "task " + pv.Task
+					r.Violations = nil
 				case rt.BudgetExceeded:
 					r.Violate(p.ID+"/no-termination", "outside-task", "step budget exhausted after %d steps", pv.Steps)
 				default:
